@@ -127,8 +127,10 @@ func (f *Func) callGraph(args *argBuilder) (
 				continue
 			}
 
+			// Outputs of the identical type are connected according to their
+			// subtypes further below, this is only for implementations.
 			v2, ok := raw2.(*typedOutputVertex)
-			if !ok || !v2.Type.Implements(v.Type) {
+			if !ok || v2.Type == v.Type || !v2.Type.Implements(v.Type) {
 				continue
 			}
 
